@@ -50,6 +50,11 @@ def site_of(status, detail):
     elif 'panic_fmt' in d or 'panicking::panic' in d:
         kind = 'panic'
     segs = [x for x in fn.split('::') if x]
+    # role key: the bounded-by-wire-size `Vec::with_capacity(count)` of the array-read template the generator prints into
+    # every generated reader is ONE call site of the generator; its instances in the generated read_inner / read
+    # functions share one key. Hand-written readers (util, helper, manual) and unguarded allocations keep their own.
+    if kind == 'alloc' and segs and segs[-1] in ('read_inner', 'read') and any(x in ('vanilla', 'tbc', 'wrath', 'shared', 'logon', 'version_2', 'version_3', 'version_5', 'version_6', 'version_7', 'version_8', 'all') for x in segs) and 'util' not in segs and 'helper' not in segs and 'manual' not in segs:
+        return 'alloc@generated array reader (Vec::with_capacity(count) bounded by wire size)'
     return (kind + '@' + '::'.join(segs[-2:])[:80]) if segs else kind
 
 
